@@ -112,6 +112,17 @@ fn parse_tier(a: Option<&String>) -> Tier {
 fn worker(prop: &str, tier: Tier) -> i32 {
     crash::install(true);
     crash::tune_allocator();
+    // a worker whose driver has gone (killed, timed out) must not keep 16 cores busy: watch the parent
+    {
+        let parent = std::os::unix::process::parent_id();
+        std::thread::spawn(move || loop {
+            std::thread::sleep(std::time::Duration::from_secs(2));
+            if std::os::unix::process::parent_id() != parent {
+                eprintln!("worker: the driver process is gone, exiting");
+                std::process::exit(3);
+            }
+        });
+    }
     let t0 = Instant::now();
     let out = match std::panic::catch_unwind(|| props::run_property(prop, tier)) {
         Ok(o) => o,
